@@ -14,7 +14,7 @@ import sqlite3
 from harness import core, execb, tlc
 from harness.c11 import gen
 
-SHAPES = ["top", "subquery-from", "subquery-in", "union", "intersect", "except"]
+SHAPES = ["top", "subquery-from", "subquery-from-topn", "subquery-in", "union", "intersect", "except"]
 SCHEMA = ["CREATE TABLE t1 (a INTEGER, b INTEGER, c TEXT)", "CREATE UNIQUE INDEX t1a ON t1 (a)", "CREATE TABLE t2 (a INTEGER, b INTEGER, c TEXT)",
           "CREATE TABLE t3 (a INTEGER, b INTEGER, c TEXT)", "CREATE TABLE t6 (a INTEGER, b INTEGER, c TEXT)", "CREATE TABLE ot (k INTEGER)"]
 TABLES = ["t1", "t2", "t3", "t6", "ot"]
@@ -79,6 +79,8 @@ def place(env, Q, q, shape):
         return q
     if shape == "subquery-from":
         return Q.from_(q.as_("sq")).select("a").orderby(1)
+    if shape == "subquery-from-topn":   # the sorted derived table of the top-N idiom: its ORDER BY decides which rows the outer LIMIT keeps
+        return Q.from_(q.as_("sq")).select("a").limit(2)
     if shape == "subquery-in":
         return Q.from_(o).select(o.k).where(o.k.isin(q)).orderby(1)
     if shape == "union":
@@ -154,7 +156,11 @@ def run(tier: str) -> int:
     for p in progs:
         shapes = SHAPES if p["kind"].startswith("select") or p["kind"] == "group" else ["top"]
         for shape in shapes:
-            if shape != "top" and (len(_selects(p["hist"])) != 1 or any(c["m"] in ("limit", "offset", "slice", "orderby") for c in p["hist"])):
+            ms = {c["m"] for c in p["hist"]}
+            if shape == "subquery-from-topn":
+                if len(_selects(p["hist"])) != 1 or "orderby" not in ms or ms & {"limit", "offset", "slice"}:
+                    continue  # (a sorted, unpaginated, one-column derived table)
+            elif shape != "top" and (len(_selects(p["hist"])) != 1 or ms & {"limit", "offset", "slice", "orderby"}):
                 continue  # nesting shapes need a one-column, unpaginated operand
             q = dict(p)
             q["ref_shaped"] = shaped_ref(shape, p["ref"])
@@ -228,6 +234,8 @@ def shaped_ref(shape, ref):
         return ref
     if shape == "subquery-from":
         return 'SELECT "sq"."a" FROM (' + ref + ') AS "sq" ORDER BY 1'
+    if shape == "subquery-from-topn":
+        return 'SELECT "sq"."a" FROM (' + ref + ') AS "sq" LIMIT 2'
     if shape == "subquery-in":
         return 'SELECT "ot"."k" FROM "ot" WHERE ("ot"."k" IN (' + ref + ')) ORDER BY 1'
     return ref + {"union": " UNION", "intersect": " INTERSECT", "except": " EXCEPT"}[shape] + ' SELECT "ot"."k" FROM "ot"'
